@@ -1,9 +1,32 @@
 """C13 - delay adapters deliver exactly the source's data for the shifted time (engine C data path; scheduler clause via C02's monitors)."""
 import itertools
 
-from harness import ccheck
+from harness import acheck, ccheck
+from harness import families as F
 
-replay = ccheck.replay
+A_CLAUSES = ("C13.", "C02.unjustified", "C01.lacking", "C01.pull_error")
+
+
+def replay(case):
+    if "path" in case and "family" in case.get("cfg", {}):
+        return acheck.replay_case(case, A_CLAUSES, None)
+    return ccheck.replay(case)
+
+
+def a_cases(tier):
+    """scheduler clause: the same delay chains on a link of a real composition (what the driver assumes = what is requested)"""
+    q = tier == "quick"
+    chains = [[["F", 1]], [["F", 0.5], ["F", 1.5]], [["F", 1], ["S", 2], ["F", 1]], [["F", 0.5], ["F", 0.5], ["F", 1]], [["P", 1, 0]], [["P", 2, 0.5]], [["P", 1, 0], ["F", 1]], [["F", 1], ["P", 2, 0]], [["U"]], [["F", 1], ["U"]], [["U"], ["F", 1]]]
+    cs = []
+    for ch in chains:
+        for pi in (True, False):
+            cs.append(F.pair(ch, end=5 if q else 8, pull_initial=pi))
+        cs.append(F.pair(ch, end=5 if q else 8, order=("B", "A"), starts=(0, 1)))
+    for mat in ([["F", 2], ["F", 2]], [["F", 1], ["S", 2], ["F", 3]], [["F", 4]]):
+        cs.append(F.ring(2, {1: mat}, menu=(1, 2), end=6))
+    out = list(cs)
+    out += [dict(c, stateless=5 if q else 7) for c in cs]
+    return out
 
 F_ = [["F", d] for d in (0, 0.5, 1, 2.5, 4)]
 P_ = [["P", n, x] for n in (1, 2, 3) for x in (0, 0.5)]
@@ -43,6 +66,7 @@ def cfgs(tier):
 
 def run(tier, seed, agg):
     ccheck.run_cases(cfgs(tier), agg, seed)
+    acheck.run_cases(a_cases(tier), A_CLAUSES, agg, None, seed)
     return dict(
         level="model_checking",
         rule="explicit-state BFS over all interleavings of push(gap) and pull(t) (non-decreasing t on the half-hour lattice incl. repeated times and, behind DelayToPush, requests beyond the newest publication) "
@@ -50,5 +74,5 @@ def run(tier, seed, agg):
         "chains of fixed delays run to a fixpoint, chains with history-dependent adapters to the stated depth; on every pull the time argument reaching the source output and the delivered value must equal the reference "
         "(max(t-d,start), n-th previous request - extra clamped at start, min(t, newest publication); composition of the maps, so delays add)",
         bound=dict(lag_window_h=2.5 if tier == "quick" else 4, depth="6/5/4 (chain length 1/2/3)" if tier == "quick" else "9/8/7", lattice_h=0.5),
-        assumptions=["start time = declared time of the source output", "the scheduler clause (assumed = requested time) is decided by C02's monitor 'request_time_at_source' on the same chains inside Composition.run"],
+        assumptions=["start time = declared time of the source output", "scheduler clause: the same chains on a link of a 2-component composition explored with engine A (snapshot BFS + stateless DFS); the driver must neither update the consumer while the reference's shifted time is unpublished nor advance the producer without need"],
     )
